@@ -146,7 +146,7 @@ def r2(ctx: Ctx) -> None:
                 if not ncount:
                     # the naming decisions were decided statically: the count is the literal 1
                     ok = iters == poly_of(("const", 1))
-                ctx.check(ok, f, il.node, f"{q.split('.')[-1]} ({branch} branch): the count used for naming equals the number of entities created", f"naming count = id_to - id_from + 1 = {iters}", f"naming count(s): {sorted(ncount) or ['(constant)']}; iterations: {iters}")
+                ctx.check(ok, f, il.node, f"{q.split('.')[-1]} ({branch} branch): the count used for naming equals the number of entities created", f"naming count = id_to - id_from + 1 = {iters}", f"naming count(s): {sorted(ncount) or ['(constant)']}; iterations: {iters}", guard="text")
                 if branch == "range":
                     want = poly_of(("bin", "+", ("bin", "-", ("sym", "TO"), ("sym", "FROM")), ("const", 1)))
                     got = iters
